@@ -117,8 +117,18 @@ impl<Aux> Vm<'_, Aux> {
                 let mut res = self.init_table()?;
                 let table = res.deref_mut().as_table_mut().unwrap();
                 for OwnedEntry { key, value } in o.iter() {
+                    // the key and the value are only held here until they are in the table:
+                    // guard them against collections triggered by the following allocations
                     let key = self.insert_value(key)?;
+                    let _key_guard = match key {
+                        Value::Object(o) => Some(ObjectGcGuard::new(o)),
+                        _ => None,
+                    };
                     let value = self.insert_value(value)?;
+                    let _value_guard = match value {
+                        Value::Object(o) => Some(ObjectGcGuard::new(o)),
+                        _ => None,
+                    };
                     table.insert(key, value)?;
                 }
                 Value::Object(res.0)
